@@ -17,7 +17,7 @@ import common as C
 ZONES = ["UTC", "Asia/Jerusalem", "America/New_York", "Australia/Lord_Howe", "Asia/Kathmandu", "Pacific/Kiritimati",
          "America/St_Johns", "Pacific/Apia", "Europe/London", "Pacific/Chatham", "Etc/GMT+11", "Etc/GMT-14", "America/Sao_Paulo",
          "Europe/Berlin", "Asia/Tokyo", "America/Los_Angeles", "Asia/Tehran", "Australia/Sydney"]
-WINDOW = 3 * 86400
+WINDOW = 6 * 86400      # the farthest instant a stream decodes lies 4 days from its clock reading (C13: polled 3 days later, slots a day back)
 
 
 def _off(zi, t):
